@@ -10,9 +10,13 @@ package client
 
 import (
 	"encoding/json"
+	"errors"
 	"fmt"
+	"io"
+	"net"
 	"os"
 	"sync"
+	"time"
 )
 
 type vVector struct {
@@ -143,3 +147,76 @@ func vASCII(s string) {
 }
 
 func vFmt(format string, a ...interface{}) string { return fmt.Sprintf(format, a...) }
+
+// vWire is an in-memory net.Conn: successive Read calls deliver the chunks,
+// every Write call is recorded.
+type vWire struct {
+	chunks      []string
+	pos         int
+	readErr     error // returned once the chunks are exhausted (default io.EOF)
+	written     []string
+	failWriteAt int // index of the Write call that fails (-1: never)
+	closed      int
+}
+
+func vNewWire(chunks ...string) *vWire { return &vWire{chunks: chunks, failWriteAt: -1} }
+
+func (w *vWire) Read(p []byte) (int, error) {
+	if w.pos >= len(w.chunks) {
+		if w.readErr != nil {
+			return 0, w.readErr
+		}
+		return 0, io.EOF
+	}
+	n := copy(p, w.chunks[w.pos])
+	w.pos++
+	return n, nil
+}
+
+func (w *vWire) Write(p []byte) (int, error) {
+	if w.failWriteAt == len(w.written) {
+		w.failWriteAt = -2
+		return 0, errors.New("vWire: write failed")
+	}
+	w.written = append(w.written, string(p))
+	return len(p), nil
+}
+
+func (w *vWire) Close() error                       { w.closed++; return nil }
+func (w *vWire) LocalAddr() net.Addr                { return nil }
+func (w *vWire) RemoteAddr() net.Addr               { return nil }
+func (w *vWire) SetDeadline(t time.Time) error      { return nil }
+func (w *vWire) SetReadDeadline(t time.Time) error  { return nil }
+func (w *vWire) SetWriteDeadline(t time.Time) error { return nil }
+
+// vDrain empties conn.out without blocking.
+func vDrain(conn *Conn) []string {
+	var out []string
+	for {
+		select {
+		case l := <-conn.out:
+			out = append(out, l)
+		default:
+			return out
+		}
+	}
+}
+
+func vHasCRLF(s string) bool {
+	found := false
+	for i := 0; i < len(s); i++ {
+		found = found || s[i] == '\r' || s[i] == '\n'
+	}
+	return found
+}
+
+// vHasVerb: s is verb, or verb followed by a space.
+func vHasVerb(s, verb string) bool {
+	if len(s) < len(verb) {
+		return false
+	}
+	if s[:len(verb)] != verb {
+		return false
+	}
+	return len(s) == len(verb) || s[len(verb)] == ' '
+}
